@@ -3,14 +3,19 @@
 (* Generators for C03 (parser = grammar), C18a (syntax-error locations)    *)
 (* and, through the RoundTrip theorem, C08.                                *)
 (*                                                                         *)
-(* Mode "tok": ALL token-kind sequences over Alphabet of length <= MaxLen  *)
-(*   that extend Prefix, grown token by token and not extended past the    *)
-(*   first bad token plus one (errTok+1), so the count stays near          *)
-(*   (#viable prefixes) x |Alphabet|.  Every state is a vector.            *)
-(* Mode "sim": the same machine restricted to viable continuations (the    *)
-(*   last two tokens are free), for `tlc -simulate` with long strings.     *)
-(* Mode "chr": ALL character-class sequences X over Alphabet of length     *)
-(*   <= MaxLen inside the wrapper text Pre X Post; Lex then Parse.         *)
+(* A run enumerates the families of the table Fams (one TLC run per table  *)
+(* instead of one per family: JVM start-up dominates small families).       *)
+(* Family mode "tok": ALL token-kind sequences over the family's alphabet   *)
+(*   of length <= max that extend its prefix, grown token by token and not  *)
+(*   extended past the first bad token plus one (errTok+1), so the count    *)
+(*   stays near (#viable prefixes) x |alphabet|.  Every state is a vector.  *)
+(* Mode "sim": the same machine restricted to viable continuations (the     *)
+(*   last two tokens are free), for `tlc -simulate` with long strings.      *)
+(* Mode "chr": ALL character-class sequences X over the alphabet of length  *)
+(*   <= max inside the wrapper text pre X post; Lex then Parse.  The        *)
+(*   wrappers are the four contexts of DESIGN 6/C03: ignored position       *)
+(*   between two names (and at document start), string body (and \u         *)
+(*   escape), block-string body (three variants), number.                   *)
 (*                                                                         *)
 (* A vector carries the expectation `exp` of the grammar and, only where   *)
 (* they differ, the expectations `devs` under the named deviations of      *)
@@ -47,7 +52,6 @@ PfxFieldDef == <<"type", "Name", "{", "Name", ":">>
 PreIgn == <<"{", " ", "a", " ">>            PostIgn == <<" ", "b", "c", " ", "}">>
 PreStr == <<"{", "a", "(", "x", ":", "DQ">> PostStr == <<"DQ", ")", "}">>
 PreStrU == PreStr \o <<"BS", "u">>
-PreStrU0 == PreStr \o <<"BS", "u", "0", "0">>
 PreBlk == <<"{", "a", "(", "x", ":", "DQ", "DQ", "DQ">>   PostBlk == <<"DQ", "DQ", "DQ", ")", "}">>
 PreBlk2 == PreBlk \o <<" ", "a", "LF">>
 PreBlk3 == PreBlk \o <<"LF", " ", " ", "b", "LF">>
@@ -158,13 +162,12 @@ ChrVariant(d, bytes, chars, lx, fr) ==
               ELSE (IF bytes THEN one(tokS(j), d) ELSE Loc3(chars, tokS(j), tokE(j), d))
                    \o alt(fr.pr.open, "D_C18_empty_reported_at_open")
                    \o alt(fr.pr.desc, "D_C18_description_keyword")
-      numUn == \E i \in 1..reach : lx.toks[i].un
   IN [d |-> d, bytes |-> bytes, ok |-> fr.ok, lexok |-> lx.ok, lexErr |-> fr.lexErr,
       toks |-> [i \in 1..n |-> [k |-> lx.toks[i].k, v |-> lx.toks[i].v, s |-> lx.toks[i].s, e |-> lx.toks[i].e]],
       errS |-> lx.errS, errE |-> lx.errE, errTok |-> IF perr THEN j ELSE 0, ast |-> fr.pr.ast,
       rw |-> FlatRw(lx.toks, reach) \o (IF fr.lexErr THEN lx.erw ELSE <<>>), locs |-> locs,
       lexun |-> \E i \in 1..n : lx.toks[i].un,
-      unspec |-> IF numUn THEN "number_followed_by_digit_name_or_dot" ELSE IF perr THEN fr.pr.un ELSE ""]
+      unspec |-> UnspecifiedText(lx, fr)]
 
 Same(a, b) == a.ok = b.ok /\ a.lexErr = b.lexErr /\ a.toks = b.toks /\ a.errTok = b.errTok /\ a.ast = b.ast
               /\ a.errS = b.errS /\ a.errE = b.errE
@@ -217,6 +220,9 @@ Emit == PrintT(<<"VEC", ToJson(vec)>>)
 \* and the printed form is stable (C08's theorems on all enumerated ASTs)
 \* (the printed form is canonical: `query {a}` prints as `{a}`, `implements & A` as `implements A`)
 RoundTripOK == (Mode # "chr" /\ vec.exp.ok) => RoundTrips(vec.exp.ast)
+
+\* every Unspecified flag names a declared reason
+UnspecKnown == vec.unspec \in UnspecifiedReasons \cup {""}
 
 \* an error token is a position of the input (or EOF), never before the last viable token
 ErrTokInRange == (Mode # "chr" /\ ~vec.exp.ok) => vec.exp.errTok \in 1..(Len(vec.toks) + 1)
